@@ -257,9 +257,13 @@ def gaussRun (j : Json) : R Json := do
   let mut V := memoXP n (toXP st0)
   let withSpec := getBoolD j "spec" false
   for o in ops do
+    let nOld := st.n
     st := memo (← gaussStep st o)
     if withSpec then
-      V := memoXP st.n (← xpStep V o)
+      if (← getStr o "op") == "addMode" then
+        V := memoXP st.n (addVacuum V nOld)
+      else
+        V := memoXP st.n (← xpStep V o)
   let n' := st.n
   let rng := List.range n'
   let mat (f : Nat → Nat → Cx Rat) := jarr (rng.map fun i => jarr (rng.map fun k => jCx (f i k)))
